@@ -746,10 +746,10 @@ fn scope_e2(cx: &mut Ctx, thorough: bool) {
             text.push('\n');
         }
         for (fi, f) in filters.iter().enumerate() {
-            // quick: lists up to 2 with every 4th filter (rotating), plus all filters for lists up
+            // quick: lists up to 2 with every 8th filter (rotating), plus all filters for lists up
             // to 1; thorough: lists up to 3 with every 8th filter (rotating), all for lists up to 2
             let full = if thorough { b.len() <= 2 } else { b.len() <= 1 };
-            let stride = if thorough { 8 } else { 4 };
+            let stride = 8;
             if full || (bi + fi) % stride == 0 {
                 run_case(cx, "E2", &text, f);
             }
@@ -1008,7 +1008,7 @@ pub fn main_with(mode: Mode) {
     scope_e2(&mut cx, thorough);
     let e2 = cx.run.evaluations - e1;
     let mut rng = Rng::new(args.seed);
-    let nrand = if thorough { 40000 } else { 4000 };
+    let nrand = if thorough { 40000 } else { 2500 };
     scope_random(&mut cx, &mut rng, nrand);
     let rnd = cx.run.evaluations - e1 - e2;
     scope_api(&mut cx);
